@@ -48,6 +48,17 @@ def geometry(draw):
         ox = draw(sunit) * 10.0 ** draw(st.integers(0, 4))
     if oy is None:
         oy = draw(sunit) * 10.0 ** draw(st.integers(0, 4))
+    if draw(st.integers(0, 5)) == 0:
+        # grids spanning the globe (360 wide and / or 180 high, in degrees)
+        # or exactly one unit: the extent is a round number
+        ncols, csz = draw(st.sampled_from([(360, 1.), (720, .5), (36, 10.),
+                                           (12, 30.), (1, 360.), (144, 2.5),
+                                           (1440, .25), (4, 0.25), (3, 120.)]))
+        nrows = draw(st.sampled_from([1, 2, 3, int(round(180 / csz)) or 1]))
+        nrows = min(nrows, 720)
+        return {"nrows": nrows, "ncols": ncols, "csz": csz,
+                "xll": draw(st.sampled_from([-180., 0., -179.5, 100.])),
+                "yll": draw(st.sampled_from([-90., 0., -60.]))}
     return {"nrows": nrows, "ncols": ncols, "csz": csz,
             "xll": ox * csz, "yll": oy * csz}
 
